@@ -3,6 +3,9 @@
 Regenerated (translated from the ast, so that an edit changes the Coq term):
   k_memkey          the conditional expression choosing the explicit or the argument-derived key
   k_lazy_test       the test guarding lazy evaluation (and its position after the cached return)
+  k_lazy_obj        the dispatch chain of _lazy_evaluation_obj as a decision over the answers to its four tests
+                    (callable, dict, Sequence, basestring) -> call it / rebuild as dict / rebuild as list / pass on;
+                    any further test on a path (e.g. "only when a direct member is callable") is outside the grammar
   k_read_cache      the whole branch structure of _read_cache as a decision over four booleans
                     (clear pending, persistent, file exists, key in memory) -> which store answers and
                     which deletions/flag resets happen on that path
@@ -11,7 +14,9 @@ Regenerated (translated from the ast, so that an edit changes the Coq term):
   k_pop_last        the `last=` flag of OrderedDict.popitem in the loop body
 Pinned with expect_same (any change = translation failure, handled like a broken proof): the effect
 statements on each path (del, os.remove, open/pickle.load, the OrderedDict store), cache_size, clear(),
-the initial state in __init__/_init_cache, the order lookup -> cached return -> lazy evaluation -> body -> store.
+the initial state in __init__/_init_cache, the order lookup -> cached return -> lazy evaluation -> body -> store,
+the list comprehension of _lazy_evaluation_args and the dict comprehension of _lazy_evaluation_kwargs (every member, through
+_lazy_evaluation_obj).
 Key derivation (_memkey / _serialize_obj / _serialize_args / _serialize_kwargs):
   k_serialize_obj   the dispatch chain of _serialize_obj as a decision over the answers to its six tests
                     (callable, hasattr __name__, dict, Sequence, basestring, DataMatrix) -> which branch
@@ -42,6 +47,9 @@ Record rdec := { r_hit : option src; r_reset : bool; r_delmem : bool; r_deldisk 
 Record wdec := { w_disk : bool; w_mem : bool; w_evict : bool }.
 (* which branch of _serialize_obj produces the serialisation of an object *)
 Inductive sbranch := BName | BLit (s : string) | BKwargs | BArgs | BToJson | BDumps.
+(* which branch of _lazy_evaluation_obj produces the evaluated argument: obj(), the dict rebuilt member by member, the
+   list rebuilt member by member, obj itself *)
+Inductive lbranch := LCall | LKwargs | LArgs | LSelf.
 
 '''
 
@@ -164,6 +172,61 @@ def write_block(stmts, eff, kern):
         return '(if %s\n   then %s\n   else %s)' % (test, a, b)
     raise TranslationError('_write_cache: statement outside the grammar: `%s`' % ast.unparse(st).split('\n')[0])
 
+
+
+# ------------------------------------------------------------ lazy evaluation
+LAZY_ENV = Env([
+    ('callable(obj)', 'is_callable', 'bool'),
+    ('isinstance(obj, dict)', 'is_dict', 'bool'),
+    ('isinstance(obj, Sequence)', 'is_seq', 'bool'),
+    ('isinstance(obj, basestring)', 'is_str', 'bool'),
+])
+LAZY_RET = Env([
+    ('obj()', 'LCall', 'lbranch'),
+    ('self._lazy_evaluation_kwargs(obj)', 'LKwargs', 'lbranch'),
+    ('self._lazy_evaluation_args(obj)', 'LArgs', 'lbranch'),
+    ('obj', 'LSelf', 'lbranch'),
+])
+
+
+def lazy_block(stmts):
+    if not stmts:
+        raise TranslationError('_lazy_evaluation_obj: a path falls off the end without return')
+    st, rest = stmts[0], stmts[1:]
+    if isinstance(st, ast.Return):
+        hit = LAZY_RET.lookup(st.value) if st.value is not None else None
+        if hit is None:
+            raise TranslationError('_lazy_evaluation_obj: unexpected return `%s`' % ast.unparse(st))
+        return hit[0]
+    if isinstance(st, ast.If):
+        test = tr_typed(st.test, LAZY_ENV, 'bool')
+        a = lazy_block(list(st.body) + rest)
+        b = lazy_block(list(st.orelse) + rest)
+        return '(if %s\n   then %s\n   else %s)' % (test, a, b)
+    raise TranslationError('_lazy_evaluation_obj: statement outside the grammar: `%s`' % ast.unparse(st).split('\n')[0])
+
+
+def gen_lazy(tree, out):
+    fn = find_function(tree, 'memoize._lazy_evaluation_obj')
+    if [a.arg for a in fn.args.args] != ['self', 'obj'] or fn.args.vararg or fn.args.kwarg or fn.decorator_list:
+        raise TranslationError('_lazy_evaluation_obj: signature')
+    out.append('(* _lazy_evaluation_obj: the dispatch chain *)\n'
+               'Definition k_lazy_obj (is_callable is_dict is_seq is_str : bool) : lbranch :=\n  %s.\n\n'
+               % lazy_block(body_nodoc(fn)))
+    fn = find_function(tree, 'memoize._lazy_evaluation_args')
+    if [a.arg for a in fn.args.args] != ['self', 'args'] or fn.args.vararg or fn.args.kwarg or fn.decorator_list:
+        raise TranslationError('_lazy_evaluation_args: signature')
+    b = body_nodoc(fn)
+    if len(b) != 1:
+        raise TranslationError('_lazy_evaluation_args: unexpected statements')
+    expect_same(b[0], 'return [self._lazy_evaluation_obj(arg) for arg in args]')
+    fn = find_function(tree, 'memoize._lazy_evaluation_kwargs')
+    if [a.arg for a in fn.args.args] != ['self', 'kwargs'] or fn.args.vararg or fn.args.kwarg or fn.decorator_list:
+        raise TranslationError('_lazy_evaluation_kwargs: signature')
+    b = body_nodoc(fn)
+    if len(b) != 1:
+        raise TranslationError('_lazy_evaluation_kwargs: unexpected statements')
+    expect_same(b[0], 'return {key: self._lazy_evaluation_obj(val) for key, val in kwargs.items()}')
 
 
 # ------------------------------------------------------------ key derivation
@@ -388,10 +451,7 @@ def gen(repo):
     expect_same(s4, 'return self._write_cache(memkey, self._fnc(*args, **kwargs))')
     out.append('(* evaluate callable arguments? (tested after the cached return, before the body runs) *)\n'
                'Definition k_lazy_test (lazy : bool) : bool := %s.\n\n' % lazy)
-    lz = body_nodoc(find_function(tree, 'memoize._lazy_evaluation_obj'))
-    if not lz or not isinstance(lz[0], ast.If):
-        raise TranslationError('_lazy_evaluation_obj')
-    expect_same(lz[0], 'if callable(obj):\n    return obj()')
+    gen_lazy(tree, out)
 
     # ---- _read_cache ----
     fn = find_function(tree, 'memoize._read_cache')
